@@ -67,7 +67,7 @@ fn c03_core_varint() {
 macro_rules! record_fields {
     ($name:ident, [$w0:expr, $w1:expr, $w2:expr, $w3:expr, $w4:expr, $w5:expr]) => {
         #[kani::proof]
-        #[kani::unwind(34)]
+        #[kani::unwind(12)]
         fn $name() {
             const W: [usize; 6] = [$w0, $w1, $w2, $w3, $w4, $w5];
             const TOTAL: usize = $w0 + $w1 + $w2 + $w3 + $w4 + $w5;
@@ -99,9 +99,10 @@ macro_rules! record_fields {
                     assert!(r.tx_count as u64 == f[3], "C03:record_field_txcount");
                     assert!(r.blk_index as u64 == f[4], "C03:record_field_file_number");
                     assert!(r.data_offset as u64 == f[5], "C03:record_field_data_offset");
+                    // loop-free comparison (keeps the unwind bound at the VarInt width)
                     let hb = r.block_hash.to_byte_array();
-                    let mut i = 0;
-                    while i < 32 { assert!(hb[i] == key[i], "C03:record_hash_is_key"); i += 1; }
+                    let q = |b: &[u8; 32], o: usize| u64::from_le_bytes([b[o], b[o + 1], b[o + 2], b[o + 3], b[o + 4], b[o + 5], b[o + 6], b[o + 7]]);
+                    assert!(q(&hb, 0) == q(&key, 0) && q(&hb, 8) == q(&key, 8) && q(&hb, 16) == q(&key, 16) && q(&hb, 24) == q(&key, 24), "C03:record_hash_is_key");
                 }
                 Err(e) => { core::mem::forget(e); assert!(false, "C03:record_decodes"); }
             }
@@ -121,12 +122,12 @@ record_fields!(c03_record_w10, [1, 3, 1, 1, 10, 10]);
 // value cannot be parsed (empty): only 'b' keys contribute, others are never parsed.
 fn put_simple(i: usize, first: u8, height: u8, status: u8, file: u8, pos: u8, parseable: bool) {
     unsafe {
-        ldb::KEYS[i][0] = first;
-        ldb::KEYS[i][1] = i as u8 + 1;
-        ldb::KEYLEN[i] = 33;
-        let v = &mut ldb::VALS[i];
+        ldb::KEYS.v[i][0] = first;
+        ldb::KEYS.v[i][1] = i as u8 + 1;
+        ldb::KEYLEN.v[i] = 33;
+        let v = &mut ldb::VALS.v[i];
         v[0] = 1; v[1] = height; v[2] = status; v[3] = 1; v[4] = file; v[5] = pos;
-        ldb::VLEN[i] = if parseable { 6 } else { 0 };
+        ldb::VLEN.v[i] = if parseable { 6 } else { 0 };
     }
 }
 
@@ -146,7 +147,7 @@ macro_rules! index_scan {
                 put_simple(i, first, i as u8, 29, file[i], pos[i], ISB[i]);
                 i += 1;
             }
-            unsafe { ldb::N_REC = 3; }
+            unsafe { ldb::N_REC.v = 3; }
             kani::cover!(foreign[0] == b'f' || foreign[1] == b'l' || foreign[2] == b'R', "Core's other key kinds (f, l, R)");
             kani::cover!(foreign[1] == b'B' || foreign[1] == b'F', "flag / best-block keys");
             match get_block_index(Path::new("x")) {
